@@ -389,6 +389,7 @@ def get_mdd(sess, mid):
 
 GROUPINGS = [sizes for k in (1, 2, 3) for sizes in itertools.product((1, 2, 3), repeat=k)
              if sum(sizes) <= 6]
+WIDE_GROUPINGS = [(4,), (4, 3), (3, 4), (4, 4, 2), (2, 4, 4), (4, 3, 3), (1, 4, 4), (4, 2, 4), (3, 3, 4), (4, 4, 3)]
 INT_NAMES = ['x', 'y', 'z']
 
 
@@ -638,6 +639,10 @@ def check_conversions(ctx, budget):
     # sampled part: 4..6 bits
     while time.time() < t_end:
         sizes = rng.choice(GROUPINGS)
+        if rng.random() < 0.2:
+            # ten or more bits, integer variables with 16 values
+            sizes = rng.choice(WIDE_GROUPINGS)
+            ctx.count('conversion:wide')
         nbits = sum(sizes)
         bits = bit_names(nbits)
         bit_order = bits[:]
